@@ -205,7 +205,7 @@ def make_machine(stats):
                 self.fail("guard state after a call tree is not the state before it")
 
         @rule(conds=st.lists(st.integers(0, 1), min_size=1, max_size=3), has_else=st.booleans(), loop=st.booleans(),
-              fault=st.sampled_from([None, None, "spurious", "missing", "unmergeable"]))
+              fault=st.sampled_from([None, None, "spurious", "missing", "unmergeable", "uncopyable"]))
         def block_walk(self, conds, has_else, loop, fault=None):
             """fault: the user's block is ill-formed, so that the statement which CLOSES a branch raises while merging
             (a later branch defines a variable the first did not, or omits one, or assigns something that cannot be
@@ -215,6 +215,8 @@ def make_machine(stats):
             ns, rt = self.ns, self.rt
             ctx = ns.br.BranchingValues()
             ctx.x = rt.PrivVal(1)
+            if fault == "uncopyable":
+                ctx.gen = (i for i in range(3))      # a tracked variable that cannot be copied: ENTERING the block raises
 
             def branch_body(k, inc):
                 ctx.x = ctx.x + inc
@@ -253,7 +255,7 @@ def make_machine(stats):
                         branch_body(len(conds), 3)
                     i.end()
             except (RuntimeError, TypeError, AttributeError, ValueError) as e:
-                if not fault or core.library_frame(e) is None:
+                if not fault:
                     raise
                 self.block_fault = True
             after = self.triple()
